@@ -75,6 +75,20 @@ func TestVerifC17Generate(t *testing.T) {
 				Title: fmt.Sprintf("chart %d", i), Issue: []string{"https://go.dev/issue/1"}, Program: prog, Module: c17Programs[prog],
 				Counter: fmt.Sprintf("c%d/x:{a,b}", i), Type: "partition",
 			}
+			switch rapid.IntRange(0, 7).Draw(t, "counterShape") {
+			case 0:
+				r.Counter = fmt.Sprintf("c%d/x", i)
+			case 1:
+				r.Counter = fmt.Sprintf("c%d/x:{only}", i)
+			case 2:
+				// a long bucket list (every expanded name is short; the expression as a whole has several KiB)
+				var bs []string
+				for b, nb := 0, rapid.SampledFrom([]int{50, 250, 290, 600, 2000}).Draw(t, "nbuckets"); b < nb; b++ {
+					bs = append(bs, fmt.Sprintf("bucket-%04d-name", b))
+				}
+				r.Counter = fmt.Sprintf("c%d/x:{%s}", i, strings.Join(bs, ","))
+				vstats.Label("longBucketList")
+			}
 			if rapid.IntRange(0, 2).Draw(t, "stack") == 0 {
 				r.Type = "stack"
 				r.Counter = fmt.Sprintf("s%d/bug", i)
@@ -214,7 +228,11 @@ func TestVerifC17Generate(t *testing.T) {
 func c17DescribeRecs(recs []chartconfig.ChartConfig) string {
 	var sb strings.Builder
 	for _, r := range recs {
-		fmt.Fprintf(&sb, "{%s %s depth=%d min=%q}", r.Program, r.Counter, r.Depth, r.Version)
+		c := r.Counter
+		if len(c) > 60 {
+			c = fmt.Sprintf("%s...(%d bytes)", c[:40], len(c))
+		}
+		fmt.Fprintf(&sb, "{%s %s depth=%d min=%q}", r.Program, c, r.Depth, r.Version)
 	}
 	return sb.String()
 }
